@@ -159,6 +159,48 @@ def check(case):
             for v, g in zip(var_names, call, strict=True):
                 if not _close(float(g), er[v]):
                     return outcome(False, "wrong-value", symptom="wrong-derivative:call", nontrivial=nt, detail=f"{v}: {g} expected {er[v]} | {txt}")
+        # "after everything they name" holds for the model's *current* content: the model has been queried (its
+        # resolved values exist); now edit, one after the other, a rate law, a derived quantity's function, a
+        # parameter value and a declared initial value, and compare with the reference of the edited description
+        import copy
+
+        from mc import expr as X_
+
+        spec2 = copy.deepcopy(spec)
+        by_name = {c["name"]: c for c in spec2["decl"]}
+        for edit in ("rate-law", "derived-function", "parameter-value", "initial-value"):
+            if edit == "rate-law":
+                by_name["v"]["expr"] = ["add", by_name["v"]["expr"], V(1.0)]
+                m.update_reaction("v", fn=X_.make_fn(by_name["v"]["args"], by_name["v"]["expr"], "r_v2"))
+            elif edit == "derived-function":
+                by_name["d1"]["expr"] = ["add", by_name["d1"]["expr"], V(2.0)]
+                m.update_derived("d1", fn=X_.make_fn(by_name["d1"]["args"], by_name["d1"]["expr"], "d_d1b"))
+            elif edit == "parameter-value":
+                by_name["p"]["value"] = 3.0
+                m.update_parameter("p", 3.0)
+            else:
+                by_name["x"]["value"] = 2.25
+                m.update_variable("x", 2.25)
+            ref2 = Ref(spec2)
+            init2 = ref2.init_values()
+            ic2 = m.get_initial_conditions()
+            y02 = Simulator(m).y0
+            for v, val in ref2.initial_conditions().items():
+                if not _close(float(ic2[v]), val) or not _close(float(y02[v]), val):
+                    return outcome(False, "stale", symptom=f"stale-initial-condition-after:{edit}", nontrivial=nt,
+                                   detail=f"after editing the {edit}: initial {v}={ic2[v]}, simulator starts at {y02[v]}, expected {val} | {txt}")
+            a2 = m.get_args()
+            for n, val in init2.items():
+                if not _close(float(a2[n]), val):
+                    return outcome(False, "stale", symptom=f"stale-value-at-t0-after:{edit}", nontrivial=nt,
+                                   detail=f"after editing the {edit}: {n}={a2[n]} expected {val} | {txt}")
+            state = {v: 0.9 + 0.3 * i for i, v in enumerate(var_names)}
+            exp = ref2.all_values(state, 1.5)
+            got = m.get_args(state, 1.5)
+            for n, val in exp.items():
+                if not _close(float(got[n]), val):
+                    return outcome(False, "stale", symptom=f"stale-value-after:{edit}", nontrivial=nt,
+                                   detail=f"after editing the {edit}: {n} at {state}, t=1.5: {got[n]} expected {val} | {txt}")
     except Exception as exc:  # noqa: BLE001
         return outcome(False, "exception", symptom=f"exception:{type(exc).__name__}", nontrivial=nt, detail=f"{type(exc).__name__}: {exc} | {txt}")
     return outcome(True, "equal", nontrivial=nt)
